@@ -1186,8 +1186,9 @@ Qed.
 
 Record ritem := { ri_recs : list value; ri_rg : row_group; ri_bytes : bytes }.
 
+(** a row group may hold no record at all: the loop of Next skips it *)
 Definition ritem_ok (fs : list field) (x : ritem) : Prop :=
-  ri_recs x <> [] /\ rg_num_rows (ri_rg x) = Z.of_nat (length (ri_recs x)) /\
+  rg_num_rows (ri_rg x) = Z.of_nat (length (ri_recs x)) /\
   rg_reads fs (ri_rg x) (ri_bytes x) (ri_recs x).
 
 Definition rbytes (items : list ritem) : bytes := concat (map ri_bytes items).
@@ -1201,7 +1202,7 @@ Lemma iterate_drain fs rows : forall cur f cursor rgcursor rgcount rgs nexts rec
     iterate decompress f fs rows cursor' rc rgcount [] rgs nexts' (recs ++ cur) s /\
     cursor' = (cursor + Z.of_nat (length cur))%Z /\ nexts' = nexts + N.of_nat (length cur) /\
     (rgcount <= rc)%Z.
-Proof.
+Proof using decompress. clear compress Hcodec Hident.
   induction cur as [|x cur IH]; intros f cursor rgcursor rgcount rgs nexts recs s Hrg Hrows.
   - exists cursor, rgcursor, nexts. cbn [length Nat.add] in *. rewrite app_nil_r.
     split; [reflexivity|]. repeat split; lia.
@@ -1218,7 +1219,31 @@ Proof. reflexivity. Qed.
 Lemma rrecs_cons x items : rrecs (x :: items) = ri_recs x ++ rrecs items.
 Proof. reflexivity. Qed.
 
-(** Next/Scan over the loaded records and then over the row groups [items] *)
+(** once the loaded row group is used up ([rgcount <= rgcursor]) the two
+    counters and [cur] are dead: the next call of Next overwrites them *)
+Lemma iterate_reload fuel fs rows cursor rc rn cur rgs nexts recs s :
+  (rn <= rc)%Z ->
+  iterate decompress fuel fs rows cursor rc rn cur rgs nexts recs s =
+  iterate decompress fuel fs rows cursor 0 0 [] rgs nexts recs s.
+Proof using decompress. clear compress Hcodec Hident.
+  intros Hrc. destruct fuel as [|f]; [reflexivity|]. cbn [iterate].
+  replace (rn <=? rc)%Z with true by lia. replace (0 <=? 0)%Z with true by lia. reflexivity.
+Qed.
+
+(** ... and a row group without rows at the head of the list is read and skipped *)
+Lemma iterate_skip_empty fuel fs rows cursor rg rest nexts recs s recs0 s1 :
+  read_row_group decompress fs rg s = Ok (recs0, s1) -> (rg_num_rows rg <= 0)%Z ->
+  iterate decompress fuel fs rows cursor 0 0 [] (rg :: rest) nexts recs s =
+  iterate decompress fuel fs rows cursor 0 0 [] rest nexts recs s1.
+Proof using decompress. clear compress Hcodec Hident.
+  intros Hrd Hnr. destruct fuel as [|f]; [reflexivity|]. cbn [iterate].
+  destruct (rows <=? cursor)%Z; [reflexivity|].
+  replace (0 <=? 0)%Z with true by lia. cbn [load_nonempty]. rewrite Hrd.
+  replace (0 <? rg_num_rows rg)%Z with false by lia. reflexivity.
+Qed.
+
+(** Next/Scan over the loaded records and then over the row groups [items]
+    (any of which may be empty) *)
 Lemma iterate_prefix fs rows : forall items cur f cursor rgcursor rgcount rgs2 nexts recs s tailb,
   Forall (ritem_ok fs) items -> s_fail s = None -> rem s = rbytes items ++ tailb ->
   (rgcount - rgcursor = Z.of_nat (length cur))%Z ->
@@ -1230,30 +1255,42 @@ Lemma iterate_prefix fs rows : forall items cur f cursor rgcursor rgcount rgs2 n
     cursor' = (cursor + Z.of_nat (length cur + length (rrecs items)))%Z /\
     nexts' = nexts + N.of_nat (length cur + length (rrecs items)) /\
     (rn <= rc)%Z /\ s_fail s' = None /\ rem s' = tailb.
-Proof.
+Proof using decompress. clear compress Hcodec Hident.
   induction items as [|x items IH]; intros cur f cursor rgcursor rgcount rgs2 nexts recs s tailb
                                             Hok Hfail Hrem Hrg Hrows.
   - cbn [rrecs rbytes map concat length app] in *. rewrite Nat.add_0_r in *. rewrite app_nil_r.
     destruct (iterate_drain fs rows cur f cursor rgcursor rgcount rgs2 nexts recs s Hrg Hrows)
       as (cursor' & rc & nexts' & Hrun & Hc & Hn & Hrc).
     exists s, rc, rgcount, cursor', nexts'. rewrite Hrun. split; [reflexivity|]. repeat split; auto.
-  - inversion Hok as [|x' items' (Hne & Hnr & Hrd) Hok']; subst x' items'.
+  - inversion Hok as [|x' items' (Hnr & Hrd) Hok']; subst x' items'.
     rewrite rbytes_cons, <- app_assoc in Hrem. rewrite rrecs_cons, app_length in Hrows |- *.
-    destruct (ri_recs x) as [|r0 rs] eqn:Erecs; [congruence|]. cbn [length] in Hrows, Hnr |- *.
-    replace (length cur + (S (length rs) + length (rrecs items)) + f)%nat
-      with (length cur + S (length rs + length (rrecs items) + f))%nat by lia.
-    destruct (iterate_drain fs rows cur (S (length rs + length (rrecs items) + f)) cursor rgcursor rgcount
+    destruct (Hrd s _ Hfail Hrem) as (s1 & Hrd1 & Hadv1).
+    destruct (iterate_drain fs rows cur (length (ri_recs x) + length (rrecs items) + f) cursor rgcursor rgcount
                 (map ri_rg (x :: items) ++ rgs2) nexts recs s Hrg) as (cursor1 & rc1 & nexts1 & Hrun1 & Hc1 & Hn1 & Hrc1); [lia|].
-    rewrite Hrun1. cbn [map app iterate].
-    replace (rows <=? cursor1)%Z with false by lia.
-    replace (rgcount <=? rc1)%Z with true by lia.
-    destruct (Hrd s _ Hfail Hrem) as (s1 & Hrd1 & Hadv1). rewrite Hrd1. cbn [hd tl].
-    destruct (IH rs f (cursor1 + 1)%Z (0 + 1)%Z (rg_num_rows (ri_rg x)) rgs2 (nexts1 + 1)
-                 ((recs ++ cur) ++ [r0]) s1 tailb Hok' (adv_fail _ _ _ Hadv1) (rem_adv_app _ _ _ _ Hrem Hadv1))
-      as (s' & rc & rn & cursor' & nexts' & Hrun & Hc & Hn & Hrc & Hf' & Hrem'); [lia | lia |].
-    exists s', rc, rn, cursor', nexts'. rewrite Hrun. split.
-    + f_equal. rewrite <- !app_assoc. reflexivity.
-    + repeat split; auto; lia.
+    replace (length cur + (length (ri_recs x) + length (rrecs items)) + f)%nat
+      with (length cur + (length (ri_recs x) + length (rrecs items) + f))%nat by lia.
+    rewrite Hrun1, (iterate_reload _ _ _ _ _ _ _ _ _ _ _ Hrc1).
+    cbn [map app].
+    destruct (ri_recs x) as [|r0 rs] eqn:Erecs; cbn [length] in Hrows, Hnr |- *.
+    + (* an empty row group: read, skipped *)
+      rewrite (iterate_skip_empty _ _ _ _ _ _ _ _ _ _ _ Hrd1) by lia. cbn [Nat.add].
+      destruct (IH [] f cursor1 0%Z 0%Z rgs2 nexts1 (recs ++ cur) s1 tailb Hok'
+                   (adv_fail _ _ _ Hadv1) (rem_adv_app _ _ _ _ Hrem Hadv1))
+        as (s' & rc & rn & cursor' & nexts' & Hrun & Hc & Hn & Hrc & Hf' & Hrem'); [reflexivity | cbn [length]; lia |].
+      cbn [length Nat.add app] in Hrun, Hc, Hn.
+      exists s', rc, rn, cursor', nexts'. rewrite Hrun. split.
+      * f_equal. rewrite <- app_assoc. reflexivity.
+      * repeat split; auto; lia.
+    + cbn [Nat.add iterate].
+      replace (rows <=? cursor1)%Z with false by lia.
+      replace (0 <=? 0)%Z with true by lia.
+      rewrite (load_nonempty_first _ _ _ _ _ _ _ Hrd1) by lia. cbn [hd tl].
+      destruct (IH rs f (cursor1 + 1)%Z (0 + 1)%Z (rg_num_rows (ri_rg x)) rgs2 (nexts1 + 1)
+                   ((recs ++ cur) ++ [r0]) s1 tailb Hok' (adv_fail _ _ _ Hadv1) (rem_adv_app _ _ _ _ Hrem Hadv1))
+        as (s' & rc & rn & cursor' & nexts' & Hrun & Hc & Hn & Hrc & Hf' & Hrem'); [lia | lia |].
+      exists s', rc, rn, cursor', nexts'. rewrite Hrun. split.
+      * f_equal. rewrite <- !app_assoc. reflexivity.
+      * repeat split; auto; lia.
 Qed.
 
 (** the checks of Metadata.Pages on the footer *)
@@ -1316,7 +1353,7 @@ Qed.
 Lemma iterate_end f fs rows cursor rc rn rgs nexts recs s :
   (rows <= cursor)%Z ->
   iterate decompress (S f) fs rows cursor rc rn [] rgs nexts recs s = mk_outcome rows nexts false false recs.
-Proof. intros H. cbn [iterate]. replace (rows <=? cursor)%Z with true by lia. reflexivity. Qed.
+Proof using decompress. clear compress Hcodec Hident. intros H. cbn [iterate]. replace (rows <=? cursor)%Z with true by lia. reflexivity. Qed.
 
 (** every row group readable: the reader returns all the records *)
 Theorem read_all_good fs fm items sched :
@@ -1335,7 +1372,7 @@ Proof.
               Hfm Hlen Hchk eq_refl eq_refl) as (s1 & Hopen & Hfail1 & Hrem1).
   rewrite Hopen. cbv zeta. rewrite Hrgs, Hrows. destruct items as [|x items].
   - cbn [map rrecs concat length]. cbn [Z.of_nat Z.to_nat]. rewrite iterate_end by lia. reflexivity.
-  - inversion Hok as [|x' items' (Hne & Hnr & Hrd) Hok']; subst x' items'.
+  - inversion Hok as [|x' items' (Hnr & Hrd) Hok']; subst x' items'.
     cbn [map]. rewrite rbytes_cons, <- app_assoc in Hrem1.
     destruct (Hrd s1 _ Hfail1 Hrem1) as (s2 & Hrd2 & Hadv2). rewrite Hrd2.
     rewrite rrecs_cons, app_length.
@@ -1368,7 +1405,7 @@ Proof.
   rewrite Hopen. cbv zeta. rewrite Hrgs. destruct items as [|x items].
   - cbn [map app rbytes concat] in Hrem1 |- *. rewrite <- app_assoc in Hrem1.
     rewrite (Hbad s1 _ Hfail1 Hrem1). cbn. repeat split; auto; intros H; congruence.
-  - inversion Hok as [|x' items' (Hne & Hnr & Hrd) Hok']; subst x' items'.
+  - inversion Hok as [|x' items' (Hnr & Hrd) Hok']; subst x' items'.
     cbn [map app]. rewrite rbytes_cons, <- !app_assoc in Hrem1.
     destruct (Hrd s1 _ Hfail1 Hrem1) as (s2 & Hrd2 & Hadv2). rewrite Hrd2.
     rewrite rrecs_cons, app_length in Hrows.
@@ -1385,7 +1422,7 @@ Proof.
     replace (S (Z.to_nat rows) - (length (ri_recs x) + length (rrecs items)))%nat
       with (S (Z.to_nat rows - (length (ri_recs x) + length (rrecs items)))) by lia.
     cbn [iterate]. replace (rows <=? cursor')%Z with false by lia.
-    replace (rn <=? rc)%Z with true by lia. rewrite (Hbad s' _ Hf' Hrem').
+    replace (rn <=? rc)%Z with true by lia. cbn [load_nonempty]. rewrite (Hbad s' _ Hf' Hrem').
     cbn [mk_outcome o_panic o_open_ok o_err o_recs app]. rewrite rrecs_cons.
     repeat split; auto; intros H; congruence.
 Qed.
@@ -1496,7 +1533,7 @@ Proof.
   intros Hsh. induction items as [|x items IH]; intros g Hit Hpre; [constructor|].
   destruct Hit as [(Hnr & Hb & Hccs) Hit]. cbn [map all_from] in Hpre. destruct Hpre as [[Hp Hn] Hpre].
   constructor; [|exact (IH (S g) Hit Hpre)].
-  split; [exact (proj1 (proj1 Hp))|]. split; [exact Hnr|]. rewrite Hb.
+  split; [exact Hnr|]. rewrite Hb.
   apply (foreign_rg_reads fs fc g (ri_recs x) (ri_rg x) Hsh Hp Hn Hccs).
 Qed.
 
